@@ -96,6 +96,10 @@ def main():
                 if s.count(m["old"]) < 1:
                     return False
                 s = s.replace(m["old"], m["new"], 1)
+                if "old2" in m:
+                    if s.count(m["old2"]) < 1:
+                        return False
+                    s = s.replace(m["old2"], m["new2"], 1)
                 open(p, "w", encoding="utf-8", errors="surrogateescape").write(s)
                 return True
             res = run_one(m["id"], m["property"], ap_fn, a.tier, a.runs)
